@@ -275,6 +275,7 @@ static int run_random(uint64_t seed, long n, bool nodedup, bool intnormals, bool
   for (long i = 0; i < n; ++i) {
     GenParams p = gp;
     if (bigmode) { p.max_points = 3000; p.max_faces = 6000; }
+    else if (g_expdims && r.coin(1, 12)) { p.max_points = 1500; p.max_faces = 2600; }     // determinism campaign: meshes on both sides of 1000 faces
     else if (r.coin(1, 10)) { p.max_points = 400; p.max_faces = 800; }
     const bool mesh = g_handles || r.coin(2, 3);
     Geom g = gen_geometry(r, mesh, p);
@@ -291,6 +292,8 @@ static int run_random(uint64_t seed, long n, bool nodedup, bool intnormals, bool
       for (int a = 0; a < g.pc->num_attributes(); ++a) if (g.pc->attribute(a)->data_type() == DT_FLOAT32 && g.pc->attribute(a)->num_components() >= 2 && r.coin()) { o.explicit_att = a; o.explicit_dims = r.range(1, g.pc->attribute(a)->num_components() - 1); break; }
     }
     if (getenv("VERIF_ONLY_CASE") && atoll(getenv("VERIF_ONLY_CASE")) != n_cases + 1) { ++n_cases; continue; }
+    // a process that starts in the middle of the campaign: the cases are generated (same random stream) but nothing is encoded before case N
+    if (getenv("VERIF_FROM_CASE") && n_cases + 1 < atoll(getenv("VERIF_FROM_CASE"))) { ++n_cases; continue; }
     if (getenv("VERIF_SPLIT")) o.split = atoi(getenv("VERIF_SPLIT"));
     if (getenv("VERIF_PRED")) o.pred = atoi(getenv("VERIF_PRED"));
     if (getenv("VERIF_ES")) o.es = o.ds = atoi(getenv("VERIF_ES"));
